@@ -1692,7 +1692,7 @@ func runC03(c *Ctx) {
 	if c.Thorough() {
 		workers = 16
 	}
-	total := c.N(6000, 2000000)
+	total := c.N(6000, 1000000)
 	if s := os.Getenv("VERIF_C03_N"); s != "" { // development aid: override the number of texts
 		if n, err := strconv.Atoi(s); err == nil {
 			total = n
